@@ -127,8 +127,8 @@ Record prog (T : Type) := Prog {
   p_dvars : list nat;            (* "d1 = d2 = zero"       ([] : line absent)      *)
   p_terms : list T;              (* the summands of "m0 = ..." joined by " + "     *)
   p_gain : gainform;
-  p_mshift : list nat;           (* "m{i} = m{i-1}" lines after the yield, in order *)
-  p_dshift : list nat            (* "d{i} = d{i-1}" lines, in order                 *)
+  p_mshift : list (nat * nat);   (* "m{i} = m{j}" lines after the yield, in order: (i, j) *)
+  p_dshift : list (nat * nat)    (* "d{i} = d{j}" lines, in order: (i, j)                 *)
 }.
 Arguments Prog {T}.
 Arguments p_mvars {T}. Arguments p_dvars {T}. Arguments p_terms {T}.
@@ -171,6 +171,8 @@ Definition mem_size (f : filt) : nat := (dense_len (f_den f) - 1)%nat.
 
 (* range(lm, 0, -1) *)
 Definition down_to_1 (n : nat) : list nat := rev (seq 1 n).
+(* ["r{idx} = r{idxold}".format(idx=idx, idxold=idx - 1) for idx in xrange(n, 0, -1)] *)
+Definition shift_lines (n : nat) : list (nat * nat) := map (fun i => (i, (i - 1)%nat)) (down_to_1 n).
 
 Definition codegen (f : filt) (zero : Qc) : result gen_prog :=
   if any_negative f then Err NonCausal
@@ -184,7 +186,7 @@ Definition codegen (f : filt) (zero : Qc) : result gen_prog :=
     | [] => Ok (PZero zero)
     | _ => Ok (PGen (Prog (seq 1 (la - 1)) (seq 1 (lb - 1)) data_sum
                           (gain_form (gain_of (terms (f_den f))))
-                          (down_to_1 lm) (down_to_1 (lb - 1))))
+                          (shift_lines lm) (shift_lines (lb - 1))))
     end.
 
 (* ---------------------------------------------------------------- memory *)
@@ -224,9 +226,9 @@ Fixpoint unpack (vars : list nat) (vals : list Qc) (e : env) : env :=
 Definition assign_all (vars : list nat) (z : Qc) (e : env) : env :=
   fold_left (fun e v => upd e v z) vars e.
 
-(* the lines "r{i} = r{i-1}", executed one after the other *)
-Definition exec_shifts (idxs : list nat) (e : env) : env :=
-  fold_left (fun e i => upd e i (e (i - 1)%nat)) idxs e.
+(* the lines "r{i} = r{j}", executed one after the other *)
+Definition exec_shifts (lines : list (nat * nat)) (e : env) : env :=
+  fold_left (fun e ij => upd e (fst ij) (e (snd ij))) lines e.
 
 Definition eval_term (m d : env) (t : term) : Qc :=
   match t with
@@ -290,4 +292,18 @@ Definition call (f : filt) (mem : memarg) (zero : Qc) (xs : list Qc) : result (l
   match codegen f zero with
   | Err e => Err e
   | Ok g => Ok (run_gen g (normalise_memory (mem_size f) zero mem) zero xs)
+  end.
+
+(* construction followed by item assignments on numpoly / denpoly *)
+Definition build (num den : carg) (ts : list tamper) : result filt :=
+  match mk_filter num den with
+  | Err e => Err e
+  | Ok f => Ok (fold_left apply_tamper ts f)
+  end.
+
+(* list(ZFilter(b, a)(xs, memory=mem, zero=zero)) for coefficient lists *)
+Definition run_filter (b a : list Qc) (mem : memarg) (zero : Qc) (xs : list Qc) : result (list Qc) :=
+  match mk_filter (AList b) (AList a) with
+  | Err e => Err e
+  | Ok f => call f mem zero xs
   end.
